@@ -27,6 +27,12 @@ fn main() {
         usage();
     }
     let seed: u64 = std::env::var("VERIF_SEED").ok().and_then(|s| s.parse().ok()).unwrap_or(0);
+    if args[0] == "xcase" {
+        // internal: one row with many X inputs, run in a child process under a memory limit
+        let nx: usize = args.get(1).and_then(|s| s.parse().ok()).unwrap_or(64);
+        let with_c = args.get(2).map(|s| s == "1").unwrap_or(false);
+        std::process::exit(props::c05::xcase(nx, with_c));
+    }
     if args[0] == "replay" {
         let Some(path) = args.get(1) else { usage() };
         std::process::exit(replay::replay(path));
